@@ -171,6 +171,91 @@ def nulltest(db, worktree, files):
     return total
 
 
+PATH = r"[A-Za-z_]\w*(?:(?:->|\.)\w+|\[\w+\])*"
+TERM = r"(?:" + PATH + r"|\d+)"
+FLIP = {"<": ">", ">": "<", "<=": ">=", ">=": "<="}
+
+
+def condforms(db, worktree, files):
+    """rewrite simple conditions into an equivalent spelling:
+         if (!P) -> if (P == 0)      if (P) -> if (P != 0)      if (P == NULL) -> if (!P)      if (P != NULL) -> if (P)
+         if (A < B) -> if (B > A)    (also <=, >, >=; while-conditions likewise)"""
+    total = 0
+    for rel in files:
+        path = os.path.join(worktree, rel)
+        s = open(path).read()
+        orig = s
+        kw = r"(?P<kw>\b(?:if|while) \()"
+        # order matters: handle the NULL forms first and mark results so they are not rewritten back
+        s = re.sub(kw + r"(?P<p>" + PATH + r") == NULL\)", lambda m: m.group("kw") + "!\x01" + m.group("p") + ")", s)
+        s = re.sub(kw + r"(?P<p>" + PATH + r") != NULL\)", lambda m: m.group("kw") + "\x01" + m.group("p") + ")", s)
+        s = re.sub(kw + r"!(?P<p>" + PATH + r")\)", lambda m: m.group("kw") + m.group("p") + " == 0)", s)
+        s = re.sub(kw + r"(?P<p>" + PATH + r")\)", lambda m: m.group("kw") + m.group("p") + " != 0)", s)
+        s = re.sub(kw + r"(?P<a>" + TERM + r") (?P<op><=|>=|<|>) (?P<b>" + TERM + r")\)",
+                   lambda m: "%s%s %s %s)" % (m.group("kw"), m.group("b"), FLIP[m.group("op")], m.group("a")), s)
+        s = s.replace("\x01", "")
+        if s != orig:
+            total += sum(1 for a, b in zip(orig.split("\n"), s.split("\n")) if a != b)
+            open(path, "w").write(s)
+    return total
+
+
+def incforms(db, worktree, files):
+    """for-loop increments and simple statements: i++ -> i += 1, i-- -> i -= 1 (statement / for-increment position only)."""
+    total = 0
+    for rel in files:
+        path = os.path.join(worktree, rel)
+        s = open(path).read()
+        orig = s
+        s = re.sub(r"; (\w+)\+\+\)", r"; \1 += 1)", s)
+        s = re.sub(r"; (\w+)--\)", r"; \1 -= 1)", s)
+        s = re.sub(r"(?m)^(\s+)(" + PATH + r")\+\+;$", r"\1\2 += 1;", s)
+        s = re.sub(r"(?m)^(\s+)(" + PATH + r")--;$", r"\1\2 -= 1;", s)
+        if s != orig:
+            total += sum(1 for a, b in zip(orig.split("\n"), s.split("\n")) if a != b)
+            open(path, "w").write(s)
+    return total
+
+
+def declsplit(db, worktree, files):
+    """`T x = e;` at the top of a function body becomes `T x;` ... `x = e;` placed after the declaration block."""
+    total = 0
+    for rel in files:
+        path = os.path.join(worktree, rel)
+        lines = open(path).read().split("\n")
+        funcs = sorted([f for f in db.all_functions() if f.relfile == rel], key=lambda g: -g.line)
+        for f in funcs:
+            end = f.d.get("le")
+            if end is None:
+                continue
+            # find the opening brace line of the body
+            i = f.line - 1
+            while i < end and not lines[i].rstrip().endswith("{") and lines[i].strip() != "{":
+                i += 1
+            i += 1
+            decl = re.compile(r"^(\s+)((?:const |unsigned |struct )?[A-Za-z_]\w*(?: \*+| ))(\w+) = ([^;{]+);$")
+            anydecl = re.compile(r"^\s+(?:const |unsigned |static |struct )?[A-Za-z_]\w*(?: \*+| )[\w\[\], *]+(?: = [^;{]+)?;$")
+            j = i
+            moved = []
+            while j < end and (anydecl.match(lines[j]) or lines[j].strip() == ""):
+                m = decl.match(lines[j])
+                if m and "static" not in lines[j] and "const" not in m.group(2) and "[" not in m.group(3):
+                    ind, ty, name, init = m.groups()
+                    # initialisers may refer to earlier locals only; keep order
+                    lines[j] = "%s%s%s;" % (ind, ty, name)
+                    moved.append("%s%s = %s;" % (ind, name, init))
+                j += 1
+            if moved:
+                # insert after the declaration block (before the first statement)
+                k = j
+                while k > i and lines[k - 1].strip() == "":
+                    k -= 1
+                lines[k:k] = moved
+                total += len(moved)
+        open(path, "w").write("\n".join(lines))
+    return total
+
+
 def main():
     mode, worktree = sys.argv[1], os.path.abspath(sys.argv[2])
     files = sys.argv[3:]
@@ -178,7 +263,7 @@ def main():
     try:
         if not files:
             files = sorted({f.relfile for f in db.all_functions() if f.relfile.startswith("orc/") and f.relfile.endswith(".c")} | {"tools/orcc.c"})
-        n = {"rename": rename, "nulltest": nulltest}[mode](db, worktree, files)
+        n = {"rename": rename, "nulltest": nulltest, "condforms": condforms, "incforms": incforms, "declsplit": declsplit}[mode](db, worktree, files)
         print("%s: %d lines changed in %d files" % (mode, n, len(files)))
     finally:
         import shutil
